@@ -56,7 +56,7 @@ class C02(Scenario):
             steps.append({"op": "deliver", "to": int(actor[1]), "rec": i, "w": specmod.enc_float(ws[i]), "actor": actor, "t": t})
             if s.chance(0.03):
                 # the consumer checkpoints / merges an empty partial / copies its tree in the middle of the stream
-                steps.append({"op": "interrupt", "to": int(actor[1]), "how": s.pick(["iadd_empty", "iadd_zero", "add_empty", "pickle", "copy"]), "actor": actor, "t": t})
+                steps.append({"op": "interrupt", "to": int(actor[1]), "how": s.pick(["iadd_empty", "iadd_zero", "add_empty", "pickle", "copy", "iadd_zero_x600"]), "actor": actor, "t": t})
         # the second replica's empty tree is not always fresh from the constructor: any empty tree must do
         origin = rng.fork("knobs").pick(["ctor", "ctor", "zero", "copy", "pickle", "iadd-empty", "add-empty", "zero-of-sum"])
         return {"spec": sp, "records": [specmod.enc_record(r) for r in recs], "steps": steps, "regime": profile, "origin": origin}
@@ -133,6 +133,11 @@ class C02(Scenario):
                             return x
                         if how == "iadd_zero":
                             x += x.zero()
+                            return x
+                        if how == "iadd_zero_x600":
+                            z = x.zero()
+                            for _ in range(600):
+                                x += z
                             return x
                         if how == "add_empty":
                             return x + w.build(0).value
